@@ -38,6 +38,7 @@ pub fn gen_conventional(rng: &mut Rng, with_infer: bool) -> Conv {
                 3 => a.num_vals = Some((0, None)), 4 => a.num_vals = Some((0, Some(1))), _ => {} }
             if rng.chance(1, 4) { a.delim = Some(','); }
             if rng.chance(1, 3) { a.vp = Some(VpS::Os); }
+            if matches!(a.num_vals, Some((0, _))) && rng.chance(1, 2) { a.default_missing = vec!["dmiss".into()]; }
             opts.push(i);
         } else {
             a.action = Some(if rng.chance(1, 2) { "count" } else { "setTrue" });
@@ -64,7 +65,8 @@ fn plain_val(rng: &mut Rng, k: usize, a: &ArgS) -> Vec<u8> {
     let base = ["v", "value", "x1", "é", "1", "a=b", "a b", "", "-"];
     let mut s = format!("{}{}", rng.pick(&base), k);
     if s.starts_with('-') { s = format!("m{s}"); }
-    if a.delim.is_some() && rng.chance(1, 2) { s = format!("{s},{s}z"); }
+    // delimiter shapes: inner, trailing, leading, doubled (every piece, empty ones included, is a value)
+    if a.delim.is_some() { match rng.below(8) { 0 | 1 | 2 => s = format!("{s},{s}z"), 3 => s = format!("{s},"), 4 => s = format!(",{s}"), 5 => s = format!("{s},,z"), _ => {} } }
     let mut b = s.into_bytes();
     // OS-string valued args also get values that are not UTF-8 (valid prefix + invalid tail)
     if a.vp == Some(VpS::Os) && rng.chance(1, 3) { b.push(0xFF); if rng.chance(1, 2) { b.extend_from_slice(b"t"); } }
@@ -127,6 +129,10 @@ pub fn render_with(rng: &mut Rng, cv: &Conv, inv: &Invocation, allow_explicit_es
     // an explicit `--` may be inserted before the last run of positional items if nothing but positionals follows
     let last_nonpos = inv.items.iter().rposition(|it| !matches!(it, Item::Pos { .. }));
     let escape_at = if allow_explicit_escape && !cv.cmd.settings.dont_delimit_trailing_values && inv.tail.is_none() && rng.chance(1, 2) { Some(last_nonpos.map(|k| k + 1).unwrap_or(0)) } else { None };
+    // … or between two values of the final (multi-value) positional item
+    let escape_inside: Option<usize> = match inv.items.last() {
+        Some(Item::Pos { vals }) if allow_explicit_escape && escape_at.is_none() && !cv.cmd.settings.dont_delimit_trailing_values && inv.tail.is_none() && vals.len() >= 2 && rng.chance(1, 2) => Some(1 + rng.below(vals.len() - 1)),
+        _ => None };
     while i < inv.items.len() {
         if escape_at == Some(i) && inv.items[i..].iter().any(|it| matches!(it, Item::Pos { .. })) { argv.push(b"--".to_vec()); }
         match &inv.items[i] {
@@ -163,7 +169,7 @@ pub fn render_with(rng: &mut Rng, cv: &Conv, inv: &Invocation, allow_explicit_es
                     for v in vals { argv.push(v.clone()); }
                 }
             }
-            Item::Pos { vals } => { for v in vals { argv.push(v.clone()); } }
+            Item::Pos { vals } => { for (k, v) in vals.iter().enumerate() { if i + 1 == inv.items.len() && escape_inside == Some(k) { argv.push(b"--".to_vec()); } argv.push(v.clone()); } }
         }
         i += 1;
     }
@@ -193,5 +199,11 @@ fn long_name(rng: &mut Rng, cv: &Conv, a: &ArgS) -> String {
 
 /// the values an occurrence stores: split at the delimiter
 pub fn stored(a: &ArgS, vals: &[Vec<u8>]) -> Vec<Vec<u8>> {
+    // an occurrence without a value stores the `default_missing_value`s (split like any other value)
+    if vals.is_empty() && !a.default_missing.is_empty() { let dm: Vec<Vec<u8>> = a.default_missing.iter().map(|s| s.as_bytes().to_vec()).collect(); return stored_split(a, &dm); }
+    stored_split(a, vals)
+}
+
+fn stored_split(a: &ArgS, vals: &[Vec<u8>]) -> Vec<Vec<u8>> {
     match a.delim { Some(d) => vals.iter().flat_map(|v| v.split(|b| *b == d as u8).map(|x| x.to_vec()).collect::<Vec<_>>()).collect(), None => vals.to_vec() }
 }
